@@ -113,7 +113,12 @@ func c10Run(driver string, ops []string, perm []int) (outcomes []string, view st
 	// pre-sign: every op gets a fixed nonce so that serial and concurrent runs submit identical requests
 	calls := make([]func() error, len(ops))
 	baseNonce := vsched.Now().UnixNano()
+	after0 := make([]bool, len(ops))
 	for i, op := range ops {
+		if strings.HasPrefix(op, "after0:") { // this request is only sent once request 0 has returned
+			op = strings.TrimPrefix(op, "after0:")
+			after0[i] = true
+		}
 		f := strings.Fields(op)
 		nonce := baseNonce + int64(1+i)
 		if strings.HasPrefix(op, "dup:") { // same request as the previous op
@@ -129,9 +134,18 @@ func c10Run(driver string, ops []string, perm []int) (outcomes []string, view st
 		}
 	} else {
 		var fns []func()
+		done0 := make(chan struct{})
 		for i := range calls {
 			i := i
-			fns = append(fns, func() { res[i] = calls[i]() })
+			fns = append(fns, func() {
+				if after0[i] {
+					vsched.Recv(done0)
+				}
+				res[i] = calls[i]()
+				if i == 0 {
+					vsched.Close(done0)
+				}
+			})
 		}
 		vh.Par(ops, fns...)
 	}
@@ -193,6 +207,10 @@ var c10Scenarios = map[string][]string{
 	"two-clients-one-host":   {"upd C1 H1", "upd C2 H1"},
 	"duplicate-update":       {"upd C1 H1,H2", "dup:upd C1 H1,H2"},
 	"same-client-twice":      {"upd C1 H1,H2", "upd C1 H1"},
+	"same-client-thrice":     {"upd C1 H1,H2", "upd C1 H1", "upd C1 H2"},
+	// request 0 holds C1's turn without touching its check-in time; request 1 queues behind it;
+	// request 2 only arrives once request 0 has returned
+	"queued-then-late": {"peer C1", "upd C1 H1,H2", "after0:upd C1 H1"},
 	"reconnect-vs-update":    {"conn C1", "upd C1 H1"},
 	"link-vs-update":         {"link W1 C2", "upd C2 H1,H2"},
 	"link-host-vs-update":    {"link W1 H1", "upd C1 H1"},
@@ -210,6 +228,9 @@ func c10Serial(driver, scen string, bound int) vh.Unit {
 		// differential oracle: every one-at-a-time ordering of the same requests on the real code
 		allowed := map[string]string{}
 		for _, perm := range permutations(len(ops)) {
+			if !c10Respects(ops, perm) {
+				continue
+			}
 			out, view := c10Run(driver, ops, perm)
 			allowed[fmt.Sprint(out)+"|"+view] = fmt.Sprint(perm)
 		}
@@ -217,7 +238,8 @@ func c10Serial(driver, scen string, bound int) vh.Unit {
 		var view string
 		vh.RunDFS(u, vh.DFSSpec{
 			Name: name, Bound: bound,
-			Run:  vsched.Options{YieldFiles: []string{"memory.go", "badger.go", "helpers.go", "perinterval.go", "service.go"}, Drain: true},
+			// three or more threads: delay-bounded (see DESIGN §2.2)
+			Run:  vsched.Options{YieldFiles: []string{"memory.go", "badger.go", "helpers.go", "perinterval.go", "service.go"}, Drain: true, Delay: len(ops) > 2},
 			Body: func() { out, view = c10Run(driver, ops, nil) },
 			Obs:  func(s *vsched.Sched) string { return fmt.Sprint(out) + "|" + view },
 			Check: func(s *vsched.Sched) (string, string) {
@@ -282,6 +304,20 @@ func c10RacePass(driver, scen string, reps int) vh.Unit {
 		u.Note("free-running -race repetitions: sampling, not deciding")
 		u.Sample(fmt.Sprintf("%d free-running repetitions of %v under the race detector", reps, ops))
 	}}
+}
+
+// c10Respects: requests marked after0 come after request 0 in a serial order.
+func c10Respects(ops []string, perm []int) bool {
+	pos := map[int]int{}
+	for p, i := range perm {
+		pos[i] = p
+	}
+	for i, op := range ops {
+		if strings.HasPrefix(op, "after0:") && pos[i] < pos[0] {
+			return false
+		}
+	}
+	return true
 }
 
 func c10Balances(view string) string {
@@ -426,10 +462,13 @@ func init() {
 		Units: func(tier string) []vh.Unit {
 			var us []vh.Unit
 			for _, d := range vh.Drivers {
-				for scen, ops := range c10Scenarios {
+				for scen := range c10Scenarios {
 					bound := 2
-					if len(ops) > 2 || d == vh.Badger {
+					if d == vh.Badger {
 						bound = 1
+					}
+					if scen == "queued-then-late" && d == vh.Memory {
+						bound = 2 // needs two well-placed delays
 					}
 					if tier == "thorough" {
 						bound++
